@@ -20,9 +20,16 @@ type CountCase struct {
 	Front   string   `json:"front,omitempty"`
 	ChanCap int      `json:"chancap,omitempty"`
 	Delays  []int    `json:"delays,omitempty"`
+	Solved  bool     `json:"solved,omitempty"` // Solve is called on each solver before it counts / enumerates
 }
 
 func genCountCase(r *Rng, tier string) CountCase {
+	c := genCountCase0(r, tier)
+	c.Solved = r.Chance(1, 4)
+	return c
+}
+
+func genCountCase0(r *Rng, tier string) CountCase {
 	switch r.Intn(10) {
 	case 0: // no constraint at all
 		return CountCase{Kind: "cnf", NbVars: r.Range(0, 6)}
@@ -236,6 +243,9 @@ func runCountCase(o *Oracle, d json.RawMessage, oc *Outcome) {
 			}
 		}
 	})
+	if c.Solved {
+		s1.Solve()
+	}
 	got := s1.CountModels()
 	s1.VerifSetEnumHook(nil)
 	if rounds > 1 {
@@ -251,6 +261,10 @@ func runCountCase(o *Oracle, d json.RawMessage, oc *Outcome) {
 	// 2. Enumerate with a channel
 	pb2, _ := c.problem()
 	s2 := solver.New(pb2)
+	if c.Solved {
+		s2.Solve()
+		oc.Tag("solved-first")
+	}
 	er := runEnumerate(s2, c.ChanCap, c.Delays)
 	if !er.closed {
 		oc.Fail("spec", "channel-closed", "solver.Enumerate", "models channel not closed")
@@ -269,6 +283,9 @@ func runCountCase(o *Oracle, d json.RawMessage, oc *Outcome) {
 	// 3. Enumerate without a channel
 	pb3, _ := c.problem()
 	s3 := solver.New(pb3)
+	if c.Solved {
+		s3.Solve()
+	}
 	if k := s3.Enumerate(nil, nil); k != len(want) {
 		oc.Fail("spec", "count", "solver.Enumerate(nil)", "Enumerate(nil) = %d, the problem has %d models", k, len(want))
 	}
